@@ -971,3 +971,32 @@ def r_pipeline_no_name(cx):
           "operator_name no longer short-cuts pipelines: a pipeline that starts with a macro step is taken for a macro "
           "invocation, and the arguments of its other steps leak into the values the macro body sees", cx.where(f.d["span"]))
     cx.count("R-PIPELINE-NO-NAME", "guards", len(tests))
+
+
+def normalize_pairs(cx):
+    """the ordered (from, to) literal replacements of Tokenize::normalize: a chain of `.replace(a, b)` calls, or a
+    constant table of pairs applied by a loop"""
+    f = cx.f.fn("<T as token::Tokenize>::normalize")
+    chain = _replace_chain(f)
+    pairs = [(x[1], x[2]) for x in chain if x[1] is not None and x[2] is not None]
+    if len(pairs) < 5:
+        import consts
+        tables = []
+
+        def vis(x):
+            if x[0] == "const" and isinstance(x[2], tuple) and x[2] and x[2][0] == "path":
+                tables.append(x[2][1])
+            return True
+        for bb, t in f.calls():
+            for a in f.arg_terms(bb):
+                mir.walk(a, vis)
+        for path in tables:
+            try:
+                v = consts.const_value(cx.f, path)
+            except Exception:
+                v = None
+            if isinstance(v, (list, tuple)) and len(v) >= 5 and all(
+                    isinstance(p, (list, tuple)) and len(p) == 2 and all(isinstance(q, str) for q in p) for p in v):
+                pairs = pairs + [(p[0], p[1]) for p in v]
+                break
+    return pairs
